@@ -1,0 +1,60 @@
+/*
+ * myth_verif.h -- verification hooks (compiled in only with -DMYTH_VERIF)
+ *
+ * With MYTH_VERIF undefined every macro below expands to nothing.
+ * With MYTH_VERIF defined, each hook calls through a function pointer that
+ * is NULL unless a test harness installed a controller, so a hooks-on build
+ * still behaves like the normal library.
+ *
+ *   MYTH_VERIF_POINT(id, obj, val)  placed immediately before a shared access
+ *   MYTH_VERIF_SPIN(id, obj)        placed on the failing branch of a spin loop
+ *   MYTH_VERIF_EVENT(id, obj, val)  pure notification (no scheduling decision)
+ *
+ * id is a string literal naming the program point, obj the address of the
+ * object being accessed, val a point-specific value (e.g. a CAS operand).
+ */
+#pragma once
+#ifndef MYTH_VERIF_H_
+#define MYTH_VERIF_H_
+
+#ifdef MYTH_VERIF
+
+#include <time.h>
+
+#define MYTH_VERIF_KIND_POINT 0
+#define MYTH_VERIF_KIND_SPIN  1
+#define MYTH_VERIF_KIND_EVENT 2
+
+typedef void (*myth_verif_cb_t)(int kind, const char * id,
+				const void * obj, long val);
+typedef int (*myth_verif_clock_t)(struct timespec * ts);
+typedef int (*myth_verif_choice_t)(const char * id, int n);
+
+/* weak so that both the library objects and a unit harness that only
+   includes the headers see one definition */
+__attribute__((weak)) myth_verif_cb_t g_myth_verif_cb;
+__attribute__((weak)) myth_verif_clock_t g_myth_verif_clock;
+__attribute__((weak)) myth_verif_choice_t g_myth_verif_choice;
+
+#define MYTH_VERIF_CALL_(kind, id, obj, val)				\
+  do {									\
+    myth_verif_cb_t cb__ = g_myth_verif_cb;				\
+    if (cb__) cb__((kind), (id), (const void *)(obj), (long)(val));	\
+  } while (0)
+
+#define MYTH_VERIF_POINT(id, obj, val) \
+  MYTH_VERIF_CALL_(MYTH_VERIF_KIND_POINT, id, obj, val)
+#define MYTH_VERIF_SPIN(id, obj) \
+  MYTH_VERIF_CALL_(MYTH_VERIF_KIND_SPIN, id, obj, 0)
+#define MYTH_VERIF_EVENT(id, obj, val) \
+  MYTH_VERIF_CALL_(MYTH_VERIF_KIND_EVENT, id, obj, val)
+
+#else  /* MYTH_VERIF */
+
+#define MYTH_VERIF_POINT(id, obj, val) ((void)0)
+#define MYTH_VERIF_SPIN(id, obj)       ((void)0)
+#define MYTH_VERIF_EVENT(id, obj, val) ((void)0)
+
+#endif /* MYTH_VERIF */
+
+#endif /* MYTH_VERIF_H_ */
